@@ -103,3 +103,87 @@ def timing_program(draw, max_routines=6, sends=False, nondyadic=False,
             'routines': {nm: {'body': bodies[nm]} for nm in names},
             'top': top,
             'tail': draw(st.sampled_from([0, 0.5, 1, 3]))}
+
+
+DRAWS = [['rand', [10]], ['rand', [1.0]], ['rand2', [5]], ['rrand', [1, 100]],
+         ['rrand', [0.0, 1.0]], ['exprand', [1, 100]], ['linrand', [10]],
+         ['coin', [0.5]], ['choice', [[1, 2, 3, 4]]],
+         ['scramble', [[1, 2, 3, 4]]]]
+
+
+@st.composite
+def control_program(draw):
+    """Routines, tempo changes, pauses/resumptions/stops, conditions, seeded
+    random draws and sends (C10). Targets wake on a 1/4-beat grid;
+    controllers act at odd multiples of 1/16 s so that, on tempo-1 clocks,
+    control never coincides with the target's own wake-up (other cases are
+    detected by the model and discarded)."""
+    nclocks = draw(st.integers(0, 2))
+    clocks = [{'tempo': draw(st.sampled_from([0.5, 1, 1, 2])), 'beats': None}
+              for _ in range(nclocks)]
+    refs = ['sys'] + list(range(nclocks))
+    nt = draw(st.integers(1, 3))
+    nc = draw(st.integers(1, 2))
+    routines, top = {}, []
+    tag = [0]
+
+    def nxt():
+        tag[0] += 1
+        return tag[0]
+    targets = [f't{i}' for i in range(nt)]
+    seeded = {}
+    for nm in targets:
+        body = []
+        if draw(st.integers(0, 2)) > 0:
+            seeded[nm] = draw(st.integers(0, 1000))
+            body.append(['seed', seeded[nm]])
+        for _ in range(draw(st.integers(2, 7))):
+            body.append(['log', nxt()])
+            k = draw(st.integers(0, 9))
+            if k <= 2 and nm in seeded:
+                d = draw(st.sampled_from(DRAWS))
+                body.append(['rand', d[0], d[1]])
+            elif k == 3:
+                body.append(['bundle', draw(st.sampled_from(
+                    [None, 0, 0.125, 0.5])), [['/b', nxt()]]])
+            elif k == 4:
+                body.append(['msg', nxt()])
+            elif k == 5:
+                body.append([draw(st.sampled_from(['cwait', 'fwait'])),
+                             draw(st.integers(0, 1))])
+                body.append(['log', nxt()])
+            body.append(['wait', draw(st.sampled_from(
+                [0.25, 0.25, 0.5, 0.75, 1, 1.0, 1.5, 2]))])
+        routines[nm] = {'body': body}
+        top.append(['play', nm, draw(st.sampled_from(refs)),
+                    draw(st.sampled_from([0, 0, None, [1, 0], [2, 0.5]]))])
+    for i in range(nc):
+        body = [['wait', 0.0625]]
+        for _ in range(draw(st.integers(1, 8))):
+            k = draw(st.integers(0, 11))
+            tgt = draw(st.sampled_from(targets))
+            if k <= 2:
+                body.append(['pause', tgt])
+            elif k <= 5:
+                body.append(['resume', tgt])
+            elif k == 6:
+                body.append(['stop', tgt])
+            elif k <= 8 and nclocks:
+                body.append(['tempo', draw(st.integers(0, nclocks - 1)),
+                             draw(st.sampled_from([0.5, 1, 2, 4]))])
+            elif k == 9:
+                c = draw(st.integers(0, 1))
+                body.append(['ctest', c, True])
+                body.append(['csignal', c])
+            elif k == 10:
+                body.append(['fset', draw(st.integers(0, 1)),
+                             draw(st.sampled_from([1, 'v', 2.5]))])
+            else:
+                body.append(['cunhang', draw(st.integers(0, 1))])
+            body.append(['log', nxt()])
+            body.append(['wait', draw(st.sampled_from(
+                [0.125, 0.125, 0.25, 0.375, 0.5, 1]))])
+        routines[f'c{i}'] = {'body': body}
+        top.append(['play', f'c{i}', 'sys', 0])
+    return {'clocks': clocks, 'routines': routines, 'top': top, 'tail': 0,
+            'seeded': seeded}
